@@ -68,7 +68,9 @@ def run_interleaving(case):
     # finished DAGs are built beforehand (sequentially)
     for acts in case["threads"].values():
         for a in acts:
-            if a[0] in ("desc", "call") and a[1] >= 100:
+            if a[0] in ("desc", "call") and a[1] >= 200:
+                get_dag(a[1] - 100)
+            elif a[0] in ("desc", "call") and a[1] >= 100:
                 get_dag(a[1])
             elif a[0] in ("desc", "call"):
                 get_fun(a[1])
@@ -92,6 +94,11 @@ def run_interleaving(case):
     def do_call(t, f, describing):
         """one call of a decorated function / finished DAG; classify what happened"""
         try:
+            if f >= 200:
+                # f >= 200: RECONFIGURE the finished DAG number f-200 (an action of a thread that is not building: in the
+                # model a plain call, observed as "executed")
+                get_dag(f - 100).config_from_dict({"nodes": {"h%d" % (f - 100): {"priority": 3, "is_sequential": False}}})
+                return ("executed", f)
             if f >= 100:
                 r = get_dag(f)(5)
             else:
@@ -182,7 +189,7 @@ def gen_thread_case(rng):
                     acts.append(["desc", rng.choice([1, 2, 3, 100, 101])])
                 acts.append(["end"])
             else:
-                acts.append(["call", rng.choice([1, 2, 100, 101, 102, 102])])
+                acts.append(["call", rng.choice([1, 2, 100, 101, 102, 102, 200, 202])])
         threads[str(t)] = acts
     # a random schedule that respects the lock: simulate
     remaining = {t: list(a) for t, a in threads.items()}
@@ -318,6 +325,9 @@ def run_threads(pid, tier, seed, res, only=None):
     rng = random.Random(seed * 86028121 + 17)
     n = 60 if tier == "quick" else 600
     cases = [dict(threads={"1": [["begin"], ["desc", 1], ["desc", 2], ["end"]], "2": [["call", 100]]}, sched=["1", "1", "2", "1", "1"]),
+             # a finished DAG is reconfigured by one thread while another thread is in the middle of a build
+             dict(threads={"1": [["begin"], ["desc", 1], ["desc", 2], ["end"]], "2": [["call", 200], ["call", 100]]}, sched=["1", "1", "2", "1", "2", "1"]),
+             dict(threads={"1": [["begin"], ["desc", 100], ["desc", 2], ["end"]], "2": [["call", 202]], "3": [["call", 200]]}, sched=["1", "2", "1", "3", "1", "1"]),
              dict(threads={"1": [["begin"], ["desc", 1], ["desc", 2], ["end"]], "2": [["call", 102]]}, sched=["1", "1", "2", "1", "1"]),
              dict(threads={"1": [["begin"], ["desc", 1], ["end"]], "2": [["call", 102], ["call", 1]], "3": [["call", 102]]}, sched=["1", "2", "3", "1", "2", "1"]),
              dict(threads={"1": [["begin"], ["desc", 1], ["desc", 2], ["end"]], "2": [["begin"], ["desc", 3], ["desc", 100], ["end"]]}, sched=["1", "1", "1", "1", "2", "2", "2", "2"], early={"2": 2}),
